@@ -1,129 +1,182 @@
 """C13 -- listeners fire in documented order, once each; ignore stops later
-stages.  Registration is folded over the four (early, outgoing)
-combinations and tied to the lists the dispatchers iterate; dispatch order
-and handler scope are decided on the CFGs of _react / _write_packet."""
+stages.  Decided on the path summaries (vp.pathsum) of _react,
+_write_packet, register_packet_listener and PacketListener: which list each
+stage iterates, in which order the stages run, which exceptions end the
+dispatch quietly, which list a registration lands in."""
 import ast
 
 from ..common import AnalysisError, rel
 from ..callgraph import CallGraph
 from ..connmodel import ConnModel, CONN
-from ..cfg import cfg_of
-from ..fold import Folder, Instance, Opaque, FuncVal, Env, FoldRaise
+from .. import shared, pathsum
+from ..pathsum import struct, show, is_const, subterms, path_terms
 
 LISTENER = 'minecraft.networking.packets.packet_listener'
 
 
+def sy(n):
+    return ('sym', n)
+
+
+def at(base, *names):
+    for n in names:
+        base = ('attr', base, n)
+    return base
+
+
 def run(report, db, tier):
     report.explanation = (
-        'The list chosen by register_packet_listener is computed by folding '
-        'the function for all four flag combinations and compared with the '
-        'lists that _react / _write_packet iterate (no reliance on names); '
-        'the order early loop -> reaction/write -> ordinary loop and the '
-        'scope of the IgnorePacket handler are CFG dominance facts.')
+        'Every path of _react / _write_packet is summarised: the stage '
+        'order (loop over a listener list, built-in reaction or write, loop '
+        'over a second list) is read off the effects of the completed '
+        'paths; what an exception in each stage does is read off the paths '
+        'on which that call raised (caught as IgnorePacket -> the dispatch '
+        'ends quietly; anything else propagates).  The list a registration '
+        'lands in is read off the paths of register_packet_listener for '
+        'the four flag combinations and compared with the lists the stages '
+        'iterate (no reliance on names).')
     cg = CallGraph(db)
     M = ConnModel(db, cg)
-    disp = dispatch_lists(report, db, cg, M)
-    registration(report, db, cg, M, disp)
-    call_packet(report, db, cg)
+    S = shared.summariser(db, cg)
+    disp = dispatch_lists(report, db, S, M)
+    registration(report, db, cg, S, M, disp)
+    call_packet(report, db, S)
 
 
 # ---------------------------------------------------------------------------
-def loops_and_stage(report, R, db, cg, M, fi, is_stage, what):
-    """In fi: (list attr of first loop, list attr of second loop) around the
-    stage call; reports order / handler-scope violations."""
-    g = cfg_of(fi)
-    live = g.reachable_nodes()
-    me = fi.params[0]
-    pk = fi.params[1]
-    fors = [n for n in live if n.kind == 'for']
-    stage = [n for n in live if n.ast is not None and n.kind != 'for'
-             and any(is_stage(c) for c in n.calls())]
-    if not stage:
-        report.violation(R, '%s:no-stage' % fi.name, fi.path, fi.node,
-                         fi.qualname, 'the %s is never performed' % what)
-        return None
-    loops = []
-    for h in fors:
-        it = h.ast.iter
-        if not (isinstance(it, ast.Attribute) and isinstance(it.value,
-                                                             ast.Name)
-                and it.value.id == me):
-            report.violation(R, '%s:loop-iter:%d' % (fi.name, h.lineno),
-                             fi.path, h.ast, fi.qualname,
-                             'listener loop iterates %s, not a listener '
-                             'list of the connection front to back'
-                             % ast.unparse(it))
+def listener_loop(e, me, pk):
+    """list attribute when the loop event iterates self.<attr> front to back
+    and each iteration is exactly one elem.call_packet(packet); else a
+    problem text."""
+    it = e.ctx
+    if not (it[0] == 'attr' and struct(it[1]) == me):
+        return None, 'listener loop iterates %s, not a listener list of ' \
+            'the connection front to back' % show(it)
+    for q in e.paths:
+        calls = [c for c in q.flat(('call',))]
+        good = [c for c in calls if c.fn[0] == 'attr'
+                and c.fn[2] == 'call_packet' and c.fn[1][0] == 'elem'
+                and struct(c.fn[1][1]) == struct(it)
+                and [struct(a) for a in c.args] == [pk] and not c.kwargs]
+        if len(calls) != 1 or len(good) != 1:
+            return None, 'the loop body is not exactly one ' \
+                'listener.call_packet(packet)'
+    return it[2], None
+
+
+def stages(report, R, db, S, M, fi, is_stage, what):
+    me, pk = sy(fi.params[0]), sy(fi.params[1])
+    paths = S.run(fi)
+    ignore = db.resolve_dotted(fi.module, ast.Name(id='IgnorePacket',
+                                                   ctx=ast.Load()))
+    complete = [p for p in paths if p.returns and not any(
+        n[0] == 'caught' for n in p.notes)]
+    if not complete:
+        raise AnalysisError('%s: no path completes' % fi.qualname, fi.node,
+                            rel(fi.path))
+    result = None
+    prob = {}
+    for p in complete:
+        top = [e for e in p.events if e.kind in ('loop', 'call')]
+        st = [i for i, e in enumerate(top) if e.kind == 'call'
+              and is_stage(e)]
+        if not st:
+            prob['%s:no-stage' % fi.name] = (
+                fi.node, 'the %s is never performed [%s]' % (
+                    what, p.cond_text()))
             continue
-        body = [n for n in live if h.ast in n.loops]
-        calls = [c for n in body for c in n.calls()]
-        good = [c for c in calls if isinstance(c.func, ast.Attribute)
-                and c.func.attr == 'call_packet'
-                and isinstance(c.func.value, ast.Name)
-                and isinstance(h.ast.target, ast.Name)
-                and c.func.value.id == h.ast.target.id
-                and len(c.args) == 1 and isinstance(c.args[0], ast.Name)
-                and c.args[0].id == pk]
-        if len(good) != 1 or len(calls) != 1:
-            report.violation(R, '%s:loop-body:%d' % (fi.name, h.lineno),
-                             fi.path, h.ast, fi.qualname,
-                             'the loop body is not exactly one '
-                             'listener.call_packet(packet)')
+        loops = [(i, e) for i, e in enumerate(top) if e.kind == 'loop']
+        lists = []
+        for i, e in loops:
+            attr, why = listener_loop(e, me, pk)
+            if why:
+                prob['%s:loop-body' % fi.name if 'body' in why
+                     else '%s:loop-iter' % fi.name] = (e.node, why)
+            lists.append((i, attr))
+        before = [a for i, a in lists if i < st[0]]
+        after = [a for i, a in lists if i > st[-1]]
+        if len(st) != 1 or len(lists) != 2 or len(before) != 1 or \
+                len(after) != 1:
+            prob['%s:order' % fi.name] = (
+                fi.node, 'expected one listener loop before and one after '
+                'the %s; found %d before, %d after (of %d loops, %d %s '
+                'calls)' % (what, len(before), len(after), len(lists),
+                            len(st), what))
             continue
-        loops.append((h, it.attr))
-    before = [(h, a) for h, a in loops
-              if all(g.dominates(h, s) for s in stage)
-              and not any(g.exists_path(s, lambda x: x is h) for s in stage)]
-    after = [(h, a) for h, a in loops
-             if g.exists_path(g.entry, lambda x, h=h: x is h,
-                              avoid=lambda x: x in stage) is None]
-    if len(loops) != 2 or len(before) != 1 or len(after) != 1:
-        report.violation(R, '%s:order' % fi.name, fi.path, fi.node,
-                         fi.qualname, 'expected one listener loop before '
-                         'and one after the %s; found %d before, %d after '
-                         '(of %d loops)' % (what, len(before), len(after),
-                                            len(loops)))
-        return None
+        if None in (before[0], after[0]):
+            continue
+        if result is not None and result != (before[0], after[0]):
+            prob['%s:order' % fi.name] = (
+                fi.node, 'different paths iterate different lists')
+        result = (before[0], after[0])
+    # what an exception in a stage does
+    sites = {}
+    for p in paths:
+        for e in p.flat(('call',)):
+            if (e.fn[0] == 'attr' and e.fn[2] == 'call_packet') or \
+                    is_stage(e):
+                sites.setdefault(id(e.node), dict(node=e.node, quiet=0,
+                                                  prop=0, more=None,
+                                                  other=None))
+    for p in paths:
+        for n in p.notes:
+            if n[0] != 'caught' or id(n[3]) not in sites:
+                continue
+            rec = sites[id(n[3])]
+            h = n[1]
+            cls = n[2][1] if n[2][0] == 'exc' else None
+            only_ignore = cls == ('repo', ignore) and not (
+                isinstance(h.type, ast.Tuple))
+            if not only_ignore:
+                rec['other'] = ast.unparse(h.type) if h.type is not None \
+                    else 'everything'
+                continue
+            # after the catch nothing more of the dispatch may happen
+            raised_at = None
+            evs = p.flat(('call', 'store'))
+            for i, e in enumerate(evs):
+                if e.node is n[3]:
+                    raised_at = i
+            later = [e for e in evs[raised_at + 1:]] \
+                if raised_at is not None else []
+            later = [e for e in later if (e.kind == 'call' and (
+                e.fn[0] == 'attr' and e.fn[2] == 'call_packet'
+                or is_stage(e))) or e.kind == 'store']
+            if later or not p.returns:
+                rec['more'] = later[0] if later else p
+            else:
+                rec['quiet'] += 1
+        if p.raises and len(p.outcome) > 3 and id(p.outcome[2]) in sites:
+            sites[id(p.outcome[2])]['prop'] += 1
+    bad_scope = [r for r in sites.values() if not r['quiet'] or r['more']]
+    extra = [r for r in sites.values() if r['other'] or not r['prop']]
+    if bad_scope:
+        prob['%s:ignore-scope' % fi.name] = (
+            bad_scope[0]['node'], 'an IgnorePacket raised by this call does '
+            'not end the dispatch quietly: the three stages are not '
+            'enclosed by one handler for exactly IgnorePacket that does '
+            'nothing else (an ignore does not stop the later stages, or '
+            'stops more than this packet)')
+    if extra:
+        prob['%s:extra-handler' % fi.name] = (
+            extra[0]['node'], 'exceptions other than IgnorePacket raised '
+            'by this call are caught inside the dispatch (%s): errors '
+            'would be swallowed' % (extra[0]['other'] or 'all'))
+    for key, (node, msg) in sorted(prob.items()):
+        report.violation(R, key, fi.path, node, fi.qualname, msg)
+    if prob:
+        return result if not any(k.endswith((':order', ':no-stage',
+                                             ':loop-iter', ':loop-body'))
+                                 for k in prob) else None
     report.ok(R, '%s: loop over %s, then %s, then loop over %s' % (
-        fi.name, before[0][1], what, after[0][1]))
-    # one handler for exactly IgnorePacket encloses all three stages
-    nodes = [before[0][0], after[0][0]] + stage
-    common = None
-    for n in nodes:
-        tr = [t for t in n.tries]
-        common = set(tr) if common is None else common & set(tr)
-    good = []
-    for t in common or ():
-        if len(t.handlers) == 1 and t.handlers[0].type is not None and \
-                ast.unparse(t.handlers[0].type).split('.')[-1] == \
-                'IgnorePacket' and not t.finalbody and not t.orelse:
-            hb = t.handlers[0].body
-            if all(isinstance(s, ast.Pass) or (
-                    isinstance(s, ast.Expr) and isinstance(s.value,
-                                                           ast.Constant))
-                   for s in hb):
-                good.append(t)
-    if good:
-        report.ok(R, '%s: one `except IgnorePacket: pass` encloses all '
-                  'three stages' % fi.name)
-    else:
-        report.violation(R, '%s:ignore-scope' % fi.name, fi.path, fi.node,
-                         fi.qualname, 'the three stages are not enclosed by '
-                         'one handler for exactly IgnorePacket that does '
-                         'nothing else: an ignore does not stop the later '
-                         'stages (or stops more than this packet)')
-    # nothing else catches inside (a broader handler would swallow errors)
-    for n in nodes:
-        for t in n.tries:
-            if t not in good:
-                report.violation(R, '%s:extra-handler:%d' % (fi.name,
-                                                             t.lineno),
-                                 fi.path, t, fi.qualname, 'an additional '
-                                 'try/except inside the dispatch changes '
-                                 'which stages an exception skips')
-    return before[0][1], after[0][1]
+        fi.name, result[0], what, result[1]))
+    report.ok(R, '%s: IgnorePacket from any of the %d call sites ends the '
+              'dispatch quietly; anything else propagates' % (
+                  fi.name, len(sites)))
+    return result
 
 
-def dispatch_lists(report, db, cg, M):
+def dispatch_lists(report, db, S, M):
     R2 = report.rule('R13.2', 'incoming: early listeners, then the built-in '
                      'reaction, then ordinary listeners, in one '
                      'IgnorePacket-only handler')
@@ -133,104 +186,121 @@ def dispatch_lists(report, db, cg, M):
     react = M.conn_method('_react')
     wp = M.conn_method('_write_packet')
 
-    def is_react(c):
-        return isinstance(c.func, ast.Attribute) and c.func.attr == 'react' \
-            and any(m.name == 'react' for m, _, _ in
-                    cg.callee_funcs(react, c))
+    def is_react(e):
+        return e.method() == 'react' and any(
+            t.name == 'react' for t in (e.targets or ()))
 
-    def is_write(c):
-        return isinstance(c.func, ast.Attribute) and c.func.attr == 'write' \
-            and any(m.name == 'write' and m.cls is not None
-                    and m.cls.name == 'Packet'
-                    for m, _, _ in cg.callee_funcs(wp, c))
-    a = loops_and_stage(report, R2, db, cg, M, react, is_react,
-                        'built-in reaction')
-    b = loops_and_stage(report, R3, db, cg, M, wp, is_write, 'write')
+    def is_write(e):
+        return e.method() == 'write' and any(
+            t.name == 'write' and t.cls is not None
+            and t.cls.name == 'Packet' for t in (e.targets or ()))
+    a = stages(report, R2, db, S, M, react, is_react, 'built-in reaction')
+    b = stages(report, R3, db, S, M, wp, is_write, 'write')
     # the reaction is applied to the same packet, through the reactor in
     # force *now* (read from the connection at dispatch time)
-    g = cfg_of(react)
-    for n in g.reachable_nodes():
-        for c in (n.calls() if n.ast is not None else []):
-            if is_react(c):
-                okk = ast.unparse(c.func.value) == '%s.reactor' % \
-                    react.params[0] and len(c.args) == 1 and \
-                    ast.unparse(c.args[0]) == react.params[1]
-                if okk:
-                    report.ok(R2, 'self.reactor.react(packet)')
+    me, pk = sy(react.params[0]), sy(react.params[1])
+    seen = False
+    for p in S.run(react):
+        for e in p.flat(('call',)):
+            if is_react(e):
+                recv = e.fn[1] if e.fn[0] == 'attr' else e.fn[2]
+                args = [x for x in e.args if struct(x) != struct(recv)]
+                if struct(recv) == at(me, 'reactor') and \
+                        [struct(x) for x in args] == [pk]:
+                    seen = True
                 else:
-                    report.violation(R2, '_react:stage-call', react.path, c,
-                                     react.qualname, 'the reaction is not '
-                                     'self.reactor.react(packet)')
+                    report.violation(R2, '_react:stage-call', react.path,
+                                     e.node, react.qualname, 'the reaction '
+                                     'is %r, not self.reactor.react(packet)'
+                                     % e)
+    if seen and not report.violations:
+        report.ok(R2, 'self.reactor.react(packet)')
     return dict(incoming=a, outgoing=b)
 
 
 # ---------------------------------------------------------------------------
-def registration(report, db, cg, M, disp):
+def flag_fact(p, name):
+    """truth of the keyword flag `name` on the path (None: not tested)"""
+    for a, pol, _ in p.conds:
+        if a[1] == 'truth':
+            t = a[2][0]
+            if struct(t) == sy(name) or any(
+                    x == ('const', name) for x in subterms(t)):
+                return pol
+        if a[1] == 'is' and is_const(a[2][1]) and isinstance(
+                a[2][1][1], bool):
+            t = a[2][0]
+            if struct(t) == sy(name) or any(
+                    x == ('const', name) for x in subterms(t)):
+                return pol == a[2][1][1]
+    return None
+
+
+def registration(report, db, cg, S, M, disp):
     R = report.rule('R13.1', 'registration: (early, outgoing) selects the '
                     'list the matching dispatch stage iterates; insertion '
                     'appends; the four lists are created once')
     reg = M.conn_method('register_packet_listener')
     init = M.conn_method('__init__')
-    me = init.params[0]
-    lists = []
-    for n in ast.walk(init.node):
-        if isinstance(n, ast.Assign) and isinstance(n.value, ast.List) and \
-                not n.value.elts:
-            for t in n.targets:
-                if isinstance(t, ast.Attribute) and isinstance(
-                        t.value, ast.Name) and t.value.id == me:
-                    lists.append(t.attr)
+    me = sy(reg.params[0])
     want = {}
     if disp.get('incoming'):
         want[(True, False)], want[(False, False)] = disp['incoming']
     if disp.get('outgoing'):
         want[(True, True)], want[(False, True)] = disp['outgoing']
-    F = Folder(db)
-    for (early, outgoing), exp in sorted(want.items()):
-        attrs = {a: ['<earlier listener>'] for a in lists}
-        inst = Instance(M.conn, attrs)
-        kw = {}
-        if early:
-            kw['early'] = True
-        if outgoing:
-            kw['outgoing'] = True
-        try:
-            F.call_func(FuncVal(reg, bound=inst), [Opaque('callback')], kw,
-                        reg.node, Env(reg.module))
-        except FoldRaise as e:
-            report.violation(R, 'register:raises:%s,%s' % (early, outgoing),
-                             reg.path, reg.node, reg.qualname,
-                             'registration with early=%s outgoing=%s raises '
-                             '%s' % (early, outgoing, e.exc_type))
+    got = {}
+    lst_ci = db.get_class(LISTENER, 'PacketListener')
+    prob = {}
+    for p in S.run(reg):
+        if not p.returns:
             continue
-        grown = [a for a in lists if len(attrs[a]) > 1]
-        if grown != [exp]:
-            report.violation(
-                R, 'register:target:%s,%s' % (early, outgoing), reg.path,
-                reg.node, reg.qualname, 'a listener registered with '
-                'early=%s, outgoing=%s lands in %s but the %s stage '
-                'iterates %s' % (early, outgoing, grown or 'no list',
-                                 '%s %s' % ('early' if early else 'ordinary',
-                                            'outgoing' if outgoing
-                                            else 'incoming'), exp))
-            continue
-        if attrs[exp][0] != '<earlier listener>' or len(attrs[exp]) != 2:
-            report.violation(R, 'register:position:%s,%s' % (early,
-                                                             outgoing),
-                             reg.path, reg.node, reg.qualname,
-                             'the new listener is not appended after the '
-                             'ones registered earlier')
-            continue
-        new = attrs[exp][1]
-        if isinstance(new, Instance) and new.ci.name == 'PacketListener':
+        early, outgoing = flag_fact(p, 'early'), flag_fact(p, 'outgoing')
+        adds = [e for e in p.flat(('call',)) if e.fn[0] == 'attr'
+                and e.fn[2] in ('append', 'insert', 'appendleft', 'extend')
+                and e.fn[1][0] == 'attr' and struct(e.fn[1][1]) == me]
+        combos = [(a, b) for a in ((early,) if early is not None
+                                   else (True, False))
+                  for b in ((outgoing,) if outgoing is not None
+                            else (True, False))]
+        for key in combos:
+            got.setdefault(key, []).append((p, adds))
+    for key in sorted(want):
+        early, outgoing = key
+        exp = want[key]
+        label = 'early=%s, outgoing=%s' % key
+        for p, adds in got.get(key, []):
+            targets = [e.fn[1][2] for e in adds]
+            if targets != [exp]:
+                prob['register:target:%s,%s' % key] = (
+                    'a listener registered with %s lands in %s but the %s '
+                    'stage iterates %s' % (
+                        label, targets or 'no list', '%s %s' % (
+                            'early' if early else 'ordinary',
+                            'outgoing' if outgoing else 'incoming'), exp))
+                continue
+            e = adds[0]
+            if e.fn[2] != 'append':
+                prob['register:position:%s,%s' % key] = (
+                    'the new listener is not appended after the ones '
+                    'registered earlier (%s)' % e.fn[2])
+                continue
+            new = e.args[0] if e.args else None
+            if not (new is not None and new[0] == 'obj'
+                    and new[3] is lst_ci):
+                prob['register:element:%s,%s' % key] = (
+                    'what is registered is %s, not a PacketListener'
+                    % (show(new) if new else None))
+        if key not in got:
+            prob['register:target:%s,%s' % key] = (
+                'no path registers a listener with %s' % label)
+    for k, msg in sorted(prob.items()):
+        report.violation(R, k, reg.path, reg.node, reg.qualname, msg)
+    if not prob:
+        for key in sorted(want):
             report.ok(R, 'early=%s outgoing=%s -> append to %s' % (
-                early, outgoing, exp))
-        else:
-            report.violation(R, 'register:element:%s,%s' % (early, outgoing),
-                             reg.path, reg.node, reg.qualname,
-                             'what is registered is not a PacketListener')
+                key[0], key[1], want[key]))
     if not report.violations:
-        report.floor('flag combinations folded', len(want), 4)
+        report.floor('flag combinations decided', len(want), 4)
     # lists are never replaced
     for fi in db.funcs:
         if fi is init:
@@ -245,7 +315,7 @@ def registration(report, db, cg, M, disp):
 
 
 # ---------------------------------------------------------------------------
-def call_packet(report, db, cg):
+def call_packet(report, db, S):
     R = report.rule('R13.4', 'filter: isinstance against the registered '
                     'types (so superclasses match); the callback runs at '
                     'most once per call')
@@ -254,84 +324,130 @@ def call_packet(report, db, cg):
     init = db.own_method(ci, '__init__')
     if fi is None or init is None:
         raise AnalysisError('PacketListener.call_packet/__init__ vanished')
-    g = cfg_of(fi)
-    live = g.reachable_nodes()
-    me, pk = fi.params[0], fi.params[1]
-    cbs = [n for n in live if n.ast is not None and any(
-        ast.unparse(c.func) == '%s.callback' % me for c in n.calls())]
-    if len(cbs) != 1:
-        report.violation(R, 'call_packet:callback-sites', fi.path, fi.node,
-                         fi.qualname, 'expected exactly one invocation of '
-                         'the callback, found %d' % len(cbs))
-        return
-    cb = cbs[0]
-    call = [c for c in cb.calls()
-            if ast.unparse(c.func) == '%s.callback' % me][0]
-    if [ast.unparse(a) for a in call.args] != [pk] or call.keywords:
-        report.violation(R, 'call_packet:callback-args', fi.path, call,
-                         fi.qualname, 'the callback is not called with the '
-                         'packet')
-    if g.exists_path(cb, lambda n: n is cb,
-                     labels=('next', 'true', 'false', 'continue', 'break')):
-        report.violation(R, 'call_packet:twice', fi.path, cb.ast,
-                         fi.qualname, 'after invoking the callback the loop '
-                         'continues: a packet matching two registered types '
-                         '(a class and its superclass) is delivered twice')
-    else:
-        report.ok(R, 'callback invoked at most once per call')
-    # guard: isinstance(packet, <loop var over self.packets_to_listen>)
-    from .. import boolfn
-    conds = boolfn.path_conditions(g, cb)
-    okk = False
-    for e, t in conds:
-        if t and isinstance(e, ast.Call) and isinstance(e.func, ast.Name) \
-                and e.func.id == 'isinstance' and len(e.args) == 2 and \
-                ast.unparse(e.args[0]) == pk:
-            okk = True
-    fors = [n for n in live if n.kind == 'for']
-    it_ok = len(fors) == 1 and ast.unparse(fors[0].ast.iter).startswith(
-        '%s.' % me)
-    if okk and it_ok:
+    me, pk = sy(fi.params[0]), sy(fi.params[1])
+    cb = at(me, 'callback')
+    paths = S.run(fi)
+    prob = {}
+    list_attr = set()
+    called = 0
+
+    def guard_of(conds):
+        """attribute of self whose elements the packet was isinstance-
+        tested against (positively)"""
+        for a, pol, _ in conds:
+            if a[1] == 'isinstance' and pol and struct(a[2][0]) == pk and \
+                    a[2][1][0] == 'elem' and a[2][1][1][0] == 'attr' and \
+                    struct(a[2][1][1][1]) == me:
+                return a[2][1][1][2]
+            if a[1] == 'truth' and pol and a[2][0][0] == 'op' and \
+                    a[2][0][1] == 'any':
+                for t in subterms(a[2][0]):
+                    if t[0] == 'op' and t[1] == 'isinstance' and \
+                            struct(t[2][0]) == pk and \
+                            t[2][1][0] == 'elem' and \
+                            t[2][1][1][0] == 'attr' and \
+                            struct(t[2][1][1][1]) == me:
+                        return t[2][1][1][2]
+        return None
+    for p in paths:
+        if not (p.returns or p.raises):
+            continue
+        # only completed executions of the whole call count; paths that
+        # leave from inside the loop carry the iteration's events
+        cbs = [e for e in p.events if e.kind == 'call'
+               and struct(e.fn) == cb]
+        in_loop = []
+        for e in p.events:
+            if e.kind == 'loop':
+                for q in e.paths:
+                    qc = [c for c in q.flat(('call',))
+                          if struct(c.fn) == cb]
+                    if qc and q.outcome[0] not in ('return', 'raise'):
+                        in_loop.append((q, qc))
+        if in_loop:
+            prob['call_packet:twice'] = (
+                'after invoking the callback the loop continues: a packet '
+                'matching two registered types (a class and its '
+                'superclass) is delivered twice')
+        if len(cbs) > 1:
+            prob['call_packet:twice'] = (
+                'the callback is invoked %d times on one path' % len(cbs))
+        for e in cbs:
+            called += 1
+            if [struct(a) for a in e.args] != [pk] or e.kwargs:
+                prob['call_packet:callback-args'] = (
+                    'the callback is not called with the packet')
+            g = guard_of(p.conds_at(e))
+            if g is None:
+                prob['call_packet:filter'] = (
+                    'the callback is not guarded by isinstance(packet, '
+                    'registered_type) [%s]: subclasses of a registered type '
+                    'would not match (or everything would)'
+                    % p.cond_text())
+            else:
+                list_attr.add(g)
+            v = p.value
+            if p.returns and v != ('const', True):
+                prob['call_packet:result'] = (
+                    'a delivered packet is reported as %s' % show(v))
+    if not called:
+        prob['call_packet:callback-sites'] = (
+            'the callback is never invoked')
+    for k, msg in sorted(prob.items()):
+        report.violation(R, k, fi.path, fi.node, fi.qualname, msg)
+    if not prob:
+        report.ok(R, 'callback invoked at most once per call, with the '
+                  'packet')
         report.ok(R, 'callback guarded by isinstance(packet, type) for type '
-                  'in %s' % ast.unparse(fors[0].ast.iter))
-    else:
-        report.violation(R, 'call_packet:filter', fi.path, fi.node,
-                         fi.qualname, 'the callback is not guarded by '
-                         'isinstance(packet, registered_type): subclasses '
-                         'of a registered type would not match (or '
-                         'everything would)')
+                  'in self.%s' % sorted(list_attr)[0])
+    if len(list_attr) != 1:
+        return
+    attr = sorted(list_attr)[0]
     # __init__ keeps the registered types it is given
-    attr = ast.unparse(fors[0].ast.iter).split('.', 1)[1] if fors else None
-    stores = [n for n in ast.walk(init.node) if isinstance(n, ast.Call)
-              and isinstance(n.func, ast.Attribute)
-              and n.func.attr == 'append'
-              and ast.unparse(n.func.value) == '%s.%s' % (init.params[0],
-                                                          attr)]
-    gi = cfg_of(init)
-    extra = []
-    for st in stores:
-        par = {}
-        for n in ast.walk(init.node):
-            for ch in ast.iter_child_nodes(n):
-                par[id(ch)] = n
-        cur = st
-        while cur is not None and not gi.nodes_for(cur):
-            cur = par.get(id(cur))
-        for node in gi.nodes_for(cur) if cur is not None else []:
-            for e, t in boolfn.path_conditions(gi, node):
-                u = ast.unparse(e)
-                if not (u.startswith('issubclass(') and u.endswith(
-                        ', Packet)') and t):
-                    extra.append((u, t))
-    if stores and extra:
+    ime = sy(init.params[0])
+    va = init.node.args.vararg
+    if va is None:
+        raise AnalysisError('PacketListener.__init__ takes no *types',
+                            init.node, rel(init.path))
+    given = sy('*' + va.arg)
+    kept = False
+    extra = None
+    for p in S.run(init):
+        st = [e for e in p.flat(('store',)) if struct(e.base) == ime
+              and e.attr == attr]
+        for e in st:
+            v = e.value
+            # a comprehension over the given types
+            if v[0] == 'op' and v[1] in ('listcomp', 'genexp', 'list',
+                                         'tuple'):
+                if any(struct(t) == given for t in subterms(v)):
+                    kept = True
+                    for t in subterms(v):
+                        if t[0] == 'op' and t[1] == 'issubclass':
+                            pass
+        for e in p.events:
+            if e.kind != 'loop' or struct(e.ctx) != given:
+                continue
+            for q in e.paths:
+                apps = [c for c in q.flat(('call',)) if c.fn[0] == 'attr'
+                        and c.fn[2] == 'append' and c.args
+                        and c.args[0][0] == 'elem']
+                conds = [(a, pol) for a, pol, _ in q.conds]
+                if apps:
+                    kept = True
+                    for a, pol in conds:
+                        if not (a[1] == 'issubclass' and pol
+                                and a[2][0][0] == 'elem'):
+                            extra = '%s%s' % ('' if pol else 'not ',
+                                              show(a))
+    if extra:
         report.violation(R, 'listener:init-filter', init.path, init.node,
                          init.qualname, 'a packet type given at '
                          'registration is kept only when [%s]: a listener '
                          'registered for several types can lose one of '
-                         'them' % ' and '.join(('' if t else 'not ') + u
-                                               for u, t in extra))
-    elif stores:
-        report.ok(R, '__init__ appends each given packet type to %s' % attr)
+                         'them' % extra)
+    elif kept:
+        report.ok(R, '__init__ keeps each given packet type in %s' % attr)
     else:
         report.violation(R, 'listener:init', init.path, init.node,
                          init.qualname, 'the types given at registration '
